@@ -191,6 +191,26 @@ func (sb *sandbox) materialise(want *rstate) error {
 	return nil
 }
 
+// fileIDs reads the universe files as they are on disk now: content id, 9 = absent, 7 = foreign bytes.
+func (sb *sandbox) fileIDs() map[string]int {
+	m := map[string]int{}
+	for _, f := range sb.prog.Files {
+		m[f] = 9
+		b, err := os.ReadFile(filepath.Join(sb.root, f))
+		if err != nil {
+			continue
+		}
+		m[f] = 7
+		for c := 0; c < sb.prog.NContents; c++ {
+			if string(b) == string(contentBytes(c)) {
+				m[f] = c
+				break
+			}
+		}
+	}
+	return m
+}
+
 func (sb *sandbox) snapshot() (*rstate, error) {
 	s := &rstate{files: map[string]int{}, other: map[string]string{}}
 	uni := map[string]bool{}
@@ -259,6 +279,11 @@ type edge struct {
 	Failing []string `json:"failing"`
 	Reports []report `json:"reports"`
 	Ran     []ranRec `json:"ran"`
+	// what the dependency files were when each task's turn came (seen) and when its last command had finished (done): a task of the
+	// run may write a file that a later task of the same run depends on, so the invocation's start and end states are not enough.
+	// Taken by the recording runner around every command; a task without executed commands saw what its predecessor left.  "_" = at the start
+	Seen    map[string]map[string]int `json:"seen,omitempty"`
+	Done    map[string]map[string]int `json:"done,omitempty"`
 	Outcome string   `json:"outcome"` // normal | error | panic | killed
 	ErrCls  string   `json:"errcls"`  // none | cache | other
 	Err     string   `json:"err"`
@@ -278,6 +303,9 @@ type recRunner struct {
 		status    int
 	}
 	crashCmd int // panic when the crashCmd-th command (1-based) is started; 0 = never
+	snap     func() map[string]int
+	pre      map[string]map[string]int // task -> files before the first command of its latest execution
+	post     map[string]map[string]int // task -> files after its latest command
 }
 
 type killSentinel struct{ at string }
@@ -287,6 +315,12 @@ func (r *recRunner) Run(cmd string, _ iostream.IOStream, task string, _ []string
 		panic(killSentinel{at: fmt.Sprintf("inside command %d (%s)", r.crashCmd, cmd)})
 	}
 	st := 0
+	if r.snap != nil {
+		if n := len(r.log); n == 0 || r.log[n-1].task != task {
+			r.pre[task] = r.snap()
+		}
+		defer func() { r.post[task] = r.snap() }()
+	}
 	if r.erring[task] && strings.HasSuffix(cmd, "1") {
 		r.log = append(r.log, struct {
 			task, cmd string
@@ -320,7 +354,9 @@ func (sb *sandbox) invoke(req []string, force bool, failing []string, crash cras
 	if e.Failing == nil {
 		e.Failing = []string{}
 	}
-	rr := &recRunner{failing: map[string]bool{}, erring: map[string]bool{}}
+	rr := &recRunner{failing: map[string]bool{}, erring: map[string]bool{}, pre: map[string]map[string]int{}, post: map[string]map[string]int{}}
+	rr.snap = sb.fileIDs
+	start := sb.fileIDs()
 	for _, f := range failing {
 		if strings.HasPrefix(f, "!") { // "!T": the runner returns an error on T's first command
 			rr.erring[f[1:]] = true
@@ -338,9 +374,15 @@ func (sb *sandbox) invoke(req []string, force bool, failing []string, crash cras
 			}
 			for _, fx := range sb.prog.Effects[task] {
 				f, _ := fx[0].(string)
-				c, _ := fx[1].(float64)
 				p := filepath.Join(sb.root, f)
 				os.MkdirAll(filepath.Dir(p), 0o755)
+				if src, ok := fx[1].(string); ok && strings.HasPrefix(src, "=") { // "=s.txt": f becomes a copy of s.txt (if that exists)
+					if b, err := os.ReadFile(filepath.Join(sb.root, src[1:])); err == nil {
+						os.WriteFile(p, b, 0o644)
+					}
+					continue
+				}
+				c, _ := fx[1].(float64)
 				os.WriteFile(p, contentBytes(int(c)), 0o644)
 			}
 		}
@@ -413,6 +455,26 @@ func (sb *sandbox) invoke(req []string, force bool, failing []string, crash cras
 	}
 	if crash.Kind == "" {
 		e.At = strings.Join(names, " ")
+	}
+	e.Seen, e.Done = map[string]map[string]int{"_": start}, map[string]map[string]int{"_": start}
+	cur := start
+	for _, r := range e.Reports {
+		if p, ok := rr.pre[r.T]; ok {
+			e.Seen[r.T] = p
+			if q, ok := rr.post[r.T]; ok {
+				cur = q
+			}
+		} else {
+			e.Seen[r.T] = cur
+		}
+	}
+	for t, p := range rr.pre {
+		if _, ok := e.Seen[t]; !ok {
+			e.Seen[t] = p
+		}
+	}
+	for t, q := range rr.post {
+		e.Done[t] = q
 	}
 	return e, count
 }
